@@ -143,6 +143,12 @@ func wireCheck(c *chk.Ctx, family string, expandKinds bool, random func(*chk.Ctx
 		c.Done()
 	}
 	judgeWire(c, family, suite, out)
+	switch family {
+	case "C10":
+		clientSideCheck(c, `{"C10"}`, realErrorResponses(out))
+	case "C11":
+		clientSideCheck(c, `{"C11"}`, realErrorResponses(out))
+	}
 	c.Done()
 }
 
